@@ -25,20 +25,20 @@ import (
 // ---- script ---------------------------------------------------------------------------------
 
 type cAttempt struct {
-	Kind         string `json:"kind"` // "terr" | "reject" | "stream"
-	Stream       string `json:"stream,omitempty"`
-	End          string `json:"end,omitempty"` // "eof" | "rerr"
-	CancelAtOff  int    `json:"cancel_at_off"` // -1: never; x: once x bytes were delivered the next body Read cancels the context and returns ctx.Err()
-	CancelInRT   bool   `json:"cancel_in_rt,omitempty"`
+	Kind        string `json:"kind"` // "terr" | "reject" | "stream"
+	Stream      string `json:"stream,omitempty"`
+	End         string `json:"end,omitempty"` // "eof" | "rerr"
+	CancelAtOff int    `json:"cancel_at_off"` // -1: never; x: once x bytes were delivered the next body Read cancels the context and returns ctx.Err()
+	CancelInRT  bool   `json:"cancel_in_rt,omitempty"`
 	// RTErrAfterCancel: with CancelInRT, RoundTrip returns a transport error of its own (not the
 	// context's) after the context ended.
 	RTErrAfterCancel bool `json:"rt_err_after_cancel,omitempty"`
 	// Oversized: the stream ends with an event larger than the connection's buffer limit
 	// (cScript.BufMax): the read fails with bufio.ErrTooLong, which is a lost connection like any other.
-	Oversized bool `json:"oversized,omitempty"`
-	Latency      int64  `json:"latency,omitempty"` // virtual ns spent inside RoundTrip
-	Cuts         []int  `json:"cuts,omitempty"`
-	ByteReads    bool   `json:"byte_reads,omitempty"`
+	Oversized bool  `json:"oversized,omitempty"`
+	Latency   int64 `json:"latency,omitempty"` // virtual ns spent inside RoundTrip
+	Cuts      []int `json:"cuts,omitempty"`
+	ByteReads bool  `json:"byte_reads,omitempty"`
 }
 
 type cBackoff struct {
@@ -56,8 +56,8 @@ type cScript struct {
 	Body         string     `json:"body"` // "nil" | "nobody" | "bytes" | "noget" | "getfail:<j>"
 	CancelBefore bool       `json:"cancel_before,omitempty"`
 	// CancelInWait: cancel the context in the middle of the wait that follows attempt index (key).
-	CancelInWait map[int]bool `json:"cancel_in_wait,omitempty"`
-	CustomValidator bool    `json:"custom_validator,omitempty"`
+	CancelInWait    map[int]bool `json:"cancel_in_wait,omitempty"`
+	CustomValidator bool         `json:"custom_validator,omitempty"`
 	// Deadline: the request context ends through a (virtual) deadline instead of cancel();
 	// every "cancel" action of the script then waits until the deadline has passed.
 	Deadline bool `json:"deadline,omitempty"`
@@ -164,19 +164,19 @@ type cEventObs struct {
 }
 
 type cObs struct {
-	Attempts []cAttemptObs
-	Retries  []cRetryObs
-	Events   []cEventObs
-	Ret      error
-	RetVTime time.Duration
-	Panic    string
+	Attempts     []cAttemptObs
+	Retries      []cRetryObs
+	Events       []cEventObs
+	Ret          error
+	RetVTime     time.Duration
+	Panic        string
 	GetBodyCalls int
-	ReadErrs map[int]error
-	TErrs    map[int]error
-	ValErrs  map[int]error
-	CtxErrAtEnd error
-	OverScript bool
-	Runaway    bool
+	ReadErrs     map[int]error
+	TErrs        map[int]error
+	ValErrs      map[int]error
+	CtxErrAtEnd  error
+	OverScript   bool
+	Runaway      bool
 	// PoisonCalls: uses of configuration that does not belong to this connection
 	PoisonCalls int
 }
